@@ -142,6 +142,32 @@ def guards(ctx: Ctx, f: FunctionInfo) -> tuple[list[Guard], list[str]]:
                                     ok = True
                         if ok:
                             continue
+                    # for cand, dist in zip(candidates, dists), with
+                    # dists = [cost(c, target) for c in candidates]
+                    if isinstance(it, ast.Call) and norm(
+                        it.func) == 'zip' and isinstance(
+                            tgt, ast.Tuple) and len(tgt.elts) == len(
+                                it.args) and all(isinstance(
+                                    a, ast.Name) for a in it.args):
+                        names = [norm(t) for t in tgt.elts]
+                        ok = False
+                        if X.id in names:
+                            lst = it.args[names.index(X.id)].id
+                            for x in rd.reaching(d.node, lst):
+                                v = x.value
+                                if isinstance(v, ast.ListComp) and len(
+                                        v.generators) == 1:
+                                    cc2 = _cost_call(v.elt)
+                                    gen = v.generators[0]
+                                    srcs = [norm(a) for a in it.args]
+                                    if cc2 and cc2[0] == norm(
+                                            gen.target) and norm(
+                                                gen.iter) in srcs:
+                                        cands.add((names[srcs.index(
+                                            norm(gen.iter))], cc2[1]))
+                                        ok = True
+                        if ok:
+                            continue
                 cands.add(('?', norm(d.value)[:40]))
             if len(cands) == 1 and not next(iter(cands))[0].startswith('?'):
                 cand, tgt_ = next(iter(cands))
